@@ -27,7 +27,7 @@ Fixpoint perm_rec_t (chosen : str) (depth : N) (ic : issuer) (path : str) (rl : 
       | Ok (h, ic2, t) =>
           let '(_, id, _) := issue s_b ic r in
           let path' := path ++ s_bn ++ id ++ [60] ++ h ++ [62] in
-          if negb (is_nil chosen) && smaller_path chosen path' then Ok (None, tie || t)
+          if negb (is_nil chosen) && prune_rule (st_prune st) chosen path' then Ok (None, tie || t)
           else perm_rec_t chosen depth ic2 path' rl' (tie || t)
       end
   end.
@@ -37,7 +37,7 @@ Definition one_perm_t (base : issuer) (depth : N) (acc : str * option issuer * b
            (p : list str) : res (str * option issuer * bool * bool) :=
   let '(chosen, chosen_iss, tied, sub) := acc in
   let '(ic, path, rl) := perm_ids (st_canon st) base [] [] p in
-  if negb (is_nil chosen) && smaller_path chosen path then Ok acc
+  if negb (is_nil chosen) && prune_rule (st_prune st) chosen path then Ok acc
   else match perm_rec_t chosen depth ic path rl false with
        | Err e => Err e
        | Ok (None, t) => Ok (chosen, chosen_iss, tied, sub || t)
@@ -136,14 +136,14 @@ Fixpoint step5_t (fuel : nat) (st : state) (h2b : list (str * list str)) (tie : 
   end.
 
 (* did the run of relabel_with meet a tie?  (None: the run fails) *)
-Definition run_ties (once : bool) (fuel : nat) (df1000 plimit : option N) (d : list quad)
+Definition run_ties (v : variant) (fuel : nat) (df1000 plimit : option N) (d : list quad)
   : option bool :=
-  match step2 once d [] with
+  match step2 (v_once v) d [] with
   | Err _ => None
   | Ok b2q =>
       let b2h := step3_b2h H b2q in
       let (h2b, canon) := step4 (step3_h2b b2h) [] in
-      match step5_t fuel (mkState b2q b2h canon df1000 plimit) h2b false with
+      match step5_t fuel (mkState b2q b2h canon df1000 plimit (v_prune v)) h2b false with
       | Err _ => None
       | Ok (_, tie) => Some tie
       end
@@ -151,7 +151,7 @@ Definition run_ties (once : bool) (fuel : nat) (df1000 plimit : option N) (d : l
 End TiesAlgo.
 
 Definition no_ties (H : str -> str) (fuel : nat) (df1000 plimit : option N) (d : list quad) : Prop :=
-  run_ties H true fuel df1000 plimit d = Some false.
+  run_ties H (mkVar true true) fuel df1000 plimit d = Some false.
 
 Definition inj_on (pi : str -> str) (l : list str) : Prop :=
   forall x y, In x l -> In y l -> pi x = pi y -> x = y.
